@@ -82,6 +82,8 @@ def check_names(got_names, want_names, what):
                 raise Violation("names", f"{what}: first occurrence of {w!r} came back as {g!r}")
         elif not g.startswith(w) or g == w:
             raise Violation("names", f"{what}: duplicate of {w!r} renamed to {g!r}")
+        if w in seen:
+            pass
         seen.add(w)
     if len(set(got_names)) != len(got_names):
         raise Violation("names", f"{what}: names not unique after renaming: {got_names}")
@@ -173,6 +175,9 @@ def cases(draw):
     spec = draw(gen.io_textgrid(clean=clean, unique_names=uniq, rich=draw(st.integers(0, 3)) > 0 or not uniq))
     if not uniq and len(spec["tiers"]) > 1 and draw(st.booleans()):
         spec["tiers"][-1]["name"] = spec["tiers"][0]["name"]
+        if len(spec["tiers"]) > 2 and draw(st.booleans()):
+            # a tier literally named like the name the renaming would generate
+            spec["tiers"][draw(st.integers(1, len(spec["tiers"]) - 2))]["name"] = spec["tiers"][0]["name"] + "_2"
     data = iomodel.spec_to_data(spec)
     return {
         "data": data,
